@@ -21,14 +21,15 @@ CONSTANTS Keys,        \* e.g. {"f1", "f2", "x1", "n1", "n2", "s1", "s2"}
           MaxDepth,    \* bound on nesting
           Mutants      \* "named_keep_first", "no_apply", "shared_state", "spawned_rerun"
 
-VARIABLES cache, salive, sout, mark, stack, ncall, out, hist
-vars == <<cache, salive, sout, mark, stack, ncall, out, hist>>
+VARIABLES cache, seen, salive, sout, mark, stack, ncall, out, hist
+vars == <<cache, seen, salive, sout, mark, stack, ncall, out, hist>>
 
 Kind(k) == SubSeq(k, 1, 1)
 Spawned == { k \in Keys : Kind(k) = "s" }
 
 Init ==
     /\ cache = [k \in Keys |-> IF k \in Spawned THEN 0 ELSE -1]     \* -1: no cached system; n: Local of the cached system
+    /\ seen = [k \in Keys |-> -1]        \* value of `mark` when the cached system last started (its change-detection window); -1: never ran
     /\ salive = [k \in Spawned |-> TRUE]
     /\ sout = [k \in Spawned |-> FALSE]
     /\ mark = 0
@@ -42,6 +43,11 @@ Push(fr) == Append(stack, fr)
 Pop == SubSeq(stack, 1, Len(stack) - 1)
 Top == stack[Len(stack)]
 
+(* what `Res<Mark>::is_changed()` shows to the system state that serves the call: a state that never ran sees the resource as  *)
+(* changed; a cached one sees it changed iff `mark` was bumped since that state last started (change detection is part of   *)
+(* the state that persists per key); exclusive systems do not observe it (-1)                                             *)
+Chg(k, had) == IF Kind(k) = "x" THEN -1 ELSE IF ~had \/ seen[k] < 0 THEN 1 ELSE IF mark > seen[k] THEN 1 ELSE 0
+
 (* start a call of key k; `rest` is the stack to continue on *)
 (* `rest`: the stack to continue on when the call runs; `restErr`: when it fails without running;          *)
 (* `preq`: commands pending on the world's queue (queued by an exclusive caller) - the callee's command       *)
@@ -51,28 +57,30 @@ StartCall(k, rest, restErr, pre, preq) ==
     THEN IF ~salive[k] \/ (sout[k] /\ "spawned_rerun" \notin Mutants)
          THEN /\ out' = pre \o << [t |-> "err", key |-> k, why |-> IF salive[k] THEN "running" ELSE "missing", mark |-> mark] >>
               /\ stack' = restErr
-              /\ UNCHANGED <<cache, salive, sout, mark, ncall>>
+              /\ UNCHANGED <<cache, seen, salive, sout, mark, ncall>>
          ELSE /\ sout' = [sout EXCEPT ![k] = TRUE]
               /\ ncall' = ncall + 1
-              /\ stack' = Append(rest, [f |-> "call", key |-> k, c |-> ncall + 1, local |-> cache[k] + 1, pc |-> "body", ops |-> <<>>, preq |-> preq])
+              /\ stack' = Append(rest, [f |-> "call", key |-> k, c |-> ncall + 1, local |-> cache[k] + 1, pc |-> "body", ops |-> <<>>, preq |-> preq,
+                                         chg |-> Chg(k, TRUE), mark0 |-> mark])
               /\ out' = pre
-              /\ UNCHANGED <<cache, salive, mark>>
+              /\ UNCHANGED <<cache, seen, salive, mark>>
     ELSE LET had == cache[k] >= 0
              shared == "shared_state" \in Mutants /\ ~had /\ \E k2 \in Keys \ Spawned : k2 # k /\ Kind(k2) = Kind(k) /\ cache[k2] >= 0
              base == IF had THEN cache[k]
                      ELSE IF shared THEN cache[CHOOSE k2 \in Keys \ Spawned : k2 # k /\ Kind(k2) = Kind(k) /\ cache[k2] >= 0] ELSE 0
          IN /\ cache' = [cache EXCEPT ![k] = -1]
             /\ ncall' = ncall + 1
-            /\ stack' = Append(rest, [f |-> "call", key |-> k, c |-> ncall + 1, local |-> base + 1, pc |-> "body", ops |-> <<>>, preq |-> preq])
+            /\ stack' = Append(rest, [f |-> "call", key |-> k, c |-> ncall + 1, local |-> base + 1, pc |-> "body", ops |-> <<>>, preq |-> preq,
+                                       chg |-> Chg(k, had), mark0 |-> mark])
             /\ out' = pre
-            /\ UNCHANGED <<salive, sout, mark>>
+            /\ UNCHANGED <<seen, salive, sout, mark>>
 
 (* the body: first the `call` record, then any ops, then the end of the body *)
 BodyStart(fr) ==
     /\ fr.pc = "body"
-    /\ out' = << [t |-> "call", c |-> fr.c, key |-> fr.key, local |-> fr.local, mark |-> mark] >>
+    /\ out' = << [t |-> "call", c |-> fr.c, key |-> fr.key, local |-> fr.local, mark |-> mark, chg |-> fr.chg] >>
     /\ stack' = [stack EXCEPT ![Len(stack)].pc = "ops"]
-    /\ UNCHANGED <<cache, salive, sout, mark, ncall>>
+    /\ UNCHANGED <<cache, seen, salive, sout, mark, ncall>>
 
 BodyOp(fr) ==
     /\ fr.pc = "ops" /\ Len(fr.ops) < MaxOps
@@ -83,7 +91,7 @@ BodyOp(fr) ==
           /\ out' = << [t |-> "issue", c |-> fr.c, op |-> <<"mark", "">>] >>
        \/ \E k \in Spawned : /\ stack' = [stack EXCEPT ![Len(stack)].ops = Append(@, <<"desp", k>>)]
                              /\ out' = << [t |-> "issue", c |-> fr.c, op |-> <<"desp", k>>] >>
-    /\ UNCHANGED <<cache, salive, sout, mark, ncall>>
+    /\ UNCHANGED <<cache, seen, salive, sout, mark, ncall>>
 
 (* exclusive systems may call immediately, inside their body *)
 BodyNow(fr) ==
@@ -100,17 +108,17 @@ BodyEnd(fr) ==
     /\ LET q == fr.preq \o SelectSeq(fr.ops, LAMBDA o : o[1] # "now")
            qq == IF "no_apply" \in Mutants THEN SelectSeq(q, LAMBDA o : o[1] # "mark") ELSE q
        IN stack' = Append([stack EXCEPT ![Len(stack)].pc = "ret"], [f |-> "q", q |-> qq])
-    /\ UNCHANGED <<cache, salive, sout, mark, ncall>>
+    /\ UNCHANGED <<cache, seen, salive, sout, mark, ncall>>
 
 (* commands are applied in order, each completely, before the call returns *)
 QStep(fr) ==
     IF Len(fr.q) = 0
-    THEN /\ stack' = Pop /\ out' = <<>> /\ UNCHANGED <<cache, salive, sout, mark, ncall>>
+    THEN /\ stack' = Pop /\ out' = <<>> /\ UNCHANGED <<cache, seen, salive, sout, mark, ncall>>
     ELSE LET o == Head(fr.q)
              rest == [stack EXCEPT ![Len(stack)].q = Tail(@)]
-         IN CASE o[1] = "mark" -> /\ mark' = mark + 1 /\ stack' = rest /\ out' = <<>> /\ UNCHANGED <<cache, salive, sout, ncall>>
+         IN CASE o[1] = "mark" -> /\ mark' = mark + 1 /\ stack' = rest /\ out' = <<>> /\ UNCHANGED <<cache, seen, salive, sout, ncall>>
               [] o[1] = "desp" -> /\ salive' = [salive EXCEPT ![o[2]] = FALSE] /\ stack' = rest /\ out' = <<>>
-                                  /\ UNCHANGED <<cache, sout, mark, ncall>>
+                                  /\ UNCHANGED <<cache, seen, sout, mark, ncall>>
               [] o[1] = "call" -> StartCall(o[2], rest, rest, <<>>, <<>>)
 
 Return(fr) ==
@@ -120,9 +128,12 @@ Return(fr) ==
     /\ IF fr.key \in Spawned
        THEN /\ sout' = [sout EXCEPT ![fr.key] = FALSE]
             /\ cache' = IF salive[fr.key] THEN [cache EXCEPT ![fr.key] = fr.local] ELSE cache
+            /\ seen' = IF salive[fr.key] THEN [seen EXCEPT ![fr.key] = fr.mark0] ELSE seen
             /\ UNCHANGED salive
        ELSE /\ cache' = IF "named_keep_first" \in Mutants /\ Kind(fr.key) = "n" /\ cache[fr.key] >= 0 THEN cache
                         ELSE [cache EXCEPT ![fr.key] = fr.local]
+            /\ seen' = IF "named_keep_first" \in Mutants /\ Kind(fr.key) = "n" /\ cache[fr.key] >= 0 THEN seen
+                       ELSE [seen EXCEPT ![fr.key] = fr.mark0]
             /\ UNCHANGED <<salive, sout>>
     /\ UNCHANGED <<mark, ncall>>
 
@@ -144,5 +155,5 @@ TypeOK == /\ \A k \in Keys : cache[k] >= -1
           /\ mark >= 0
 (* the state of a key never goes backwards while the key is not running: calls with the same key see a counter *)
 (* that persists; checked as a property of consecutive `ret` values on the recorded streams (see vlib)          *)
-View == <<cache, salive, sout, mark, stack, ncall>>
+View == <<cache, seen, salive, sout, mark, stack, ncall>>
 =============================================================================
